@@ -19,7 +19,7 @@ CHECKS = {
          "(error-predicate vector, write-back, full contents) is judged by TLC against the specification; concurrent "
          "real-thread histories are accepted only if TLC finds linearization points (TraceStoreLin). "
          "Histories that start on a restarted persistent-backed state whose first access is made by two clients at once (one parked inside the backing store's Load) are driven and judged too (TracePersist raceread). "
-         "The access-rule wrapper state.Filter has its own specification (Filter.tla): the rule is consulted exactly once per call with the access the call makes, denied calls never reach the wrapped state, allowed calls are transparent.",
+         "The access-rule wrapper state.Filter has its own specification (Filter.tla): the rule is consulted exactly once per call with the access the call makes, denied calls never reach the wrapped state, allowed calls are transparent. Linearization-point traces: build-tag guarded hooks inside the in-memory collection (one line per critical section, written under the collection mutex) are switched on while the harness drivers AND the repository's own test suites run; TLC judges every line against the store / committed-log / watch vocabulary (TraceInmem.tla).",
     note="Trusted: TLC, the Go projection of resources/errors (harness/vh). Real-thread histories sample schedules, "
          "they do not enumerate them; bounded domains (2 ids x 2 namespaces x 2 types, 3 owners, 2 finalizers).",
     technique="TLA+ sequential spec + TLC model checking; model-based replay and TLC trace validation (incl. linearizability acceptor)",
@@ -31,7 +31,7 @@ CHECKS = {
          "vocabulary (WatchProp.tla: exact prefix of the committed log, selector rewrite, errored only if lagged, nothing "
          "missing when quiet); TLC-simulated command sequences (eager and burst publishes, all watch kinds and options, "
          "stalled consumers) drive the real in-memory collection inside a synctest bubble for several history "
-         "configurations, and every received event is judged by TLC (TraceWatch.tla).",
+         "configurations, and every received event is judged by TLC (TraceWatch.tla). Linearization-point traces: build-tag guarded hooks inside the in-memory collection (one line per critical section, written under the collection mutex) are switched on while the harness drivers AND the repository's own test suites run; TLC judges every line against the store / committed-log / watch vocabulary (TraceInmem.tla).",
     note="Trusted: TLC, synctest quiescence, the event projection of harness/c02. Watcher read timing on the real code "
          "is eager or post-burst (GOMAXPROCS(1)); all read interleavings are exhaustive only in the model.",
     technique="TLA+ ring/watcher model + TLC model checking; TLC-simulated schedules replayed in a synctest bubble; TLC trace validation",
@@ -42,7 +42,7 @@ CHECKS = {
          "watches), tries malformed / foreign-incarnation / ahead / too-old bookmarks and every tail size 1..MaxCap+2 after "
          "each TLC-generated history; TLC decides accept/reject (BookmarkAccepted), the invalid-bookmark class, the exact "
          "resumed suffix and the exact tail contents; the ring model proves RecentBookmarksAccepted and AcceptedBookmarkRetained. "
-         "BootstrapBookmark combined with tail / start-from-bookmark is part of model, generator, judge and driver (the initial Noop carries the bookmark right before the first replayed event).",
+         "BootstrapBookmark combined with tail / start-from-bookmark is part of model, generator, judge and driver (the initial Noop carries the bookmark right before the first replayed event). Linearization-point traces: build-tag guarded hooks inside the in-memory collection (one line per critical section, written under the collection mutex) are switched on while the harness drivers AND the repository's own test suites run; TLC judges every line against the store / committed-log / watch vocabulary (TraceInmem.tla).",
     note="Trusted: TLC, bookmark position decoding in the harness (last 8 bytes big endian). Tail+selector combinations not driven.",
     technique="TLA+ ring model + TLC model checking; model-based replay with exhaustive resume/tail probes; TLC trace validation",
     ref="5.12"),
